@@ -91,27 +91,66 @@ def parts(c, env=None):
 
 
 def inventory(facts):
+    """one row per call of a structural operation (VERBS) inside a library class: the comparison literals known to hold when the
+    call is reached (astu.reach: nested ifs, guard clauses, else branches, loop conditions, && chains all give the same literals)"""
+    from astu import reach_tagged, induction_locals
     fns = functions_by(facts)
     rows = {}
     for pat, fn in sorted(fns.items()):
-        if not fn.get("rect"):
+        if not fn.get("rect") or fn.get("body") is None:
             continue
-        cnt = {}
         env = canon_env(fn)
+        calls = []
+        walk(fn["body"], lambda x: calls.append(x) if x.get("k") == "Call" and x.get("cname") and VERBS.match(x["cname"]) and (x.get("crec") or "").startswith("datasketches::") else None)
+        calls.sort(key=_loc_key)
+        cnt = {}
+        ind = induction_locals(fn)
+        for c in calls:
+            lits = []
+            # input validation (`if (bad) throw`) is not a trigger; neither are the bounds of loop counters
+            for l, origin in reach_tagged(fn["body"], c):
+                l = strip(l)
+                if origin == "after-throw":
+                    continue
+                if isinstance(l, dict) and l.get("k") == "Bin" and l.get("op") in FLIP:
+                    refs = set()
+                    walk(l, lambda x: refs.add(x.get("d")) if x.get("k") == "Ref" and x.get("dk") == "local" else None)
+                    if origin == "loop" and refs & ind:
+                        continue
+                    op, ids, consts, text = parts(l, env)
+                    if any(d["text"] == text for d in lits):
+                        continue
+                    lits.append({"op": op, "ids": ids, "consts": consts, "text": text})
+                elif isinstance(l, dict) and origin != "loop":
+                    # a bit test `(x & m)`, possibly negated
+                    neg = l.get("k") == "Un" and l.get("op") == "!"
+                    core = strip(l["e"]) if neg else l
+                    if not isinstance(core, dict) or core.get("k") != "Bin" or core.get("op") != "&":
+                        continue   # only bit tests: predicate calls and compound negations are not boundaries
+                    ids, consts = [], []
 
-        def v(n):
-            if n.get("k") in ("If", "While") or (n.get("k") == "For" and n.get("was") == "While"):
-                c = strip(n["c"])
-                body = n.get("t") if n.get("k") == "If" else n.get("b")
-                calls = []
-                walk(body, lambda x: calls.append(x.get("cname")) if x.get("k") == "Call" and x.get("cname") and VERBS.match(x["cname"]) and (x.get("crec") or "").startswith("datasketches::") else None)
-                if calls and c.get("k") == "Bin" and c.get("op") in FLIP:
-                    base = "%s::%s->%s" % (short(fn["rect"]), fn["name"], "+".join(sorted(set(calls))))
-                    i = cnt.get(base, 0)
-                    cnt[base] = i + 1
-                    op, ids, consts, text = parts(c, env)
-                    rows["%s#%d" % (base, i)] = {"op": op, "ids": ids, "consts": consts, "text": text, "loc": n.get("loc"), "fn": fn["qname"]}
-        walk(fn["body"], v)
+                    def v2(n):
+                        k = n.get("k")
+                        if k == "Ref" and "v" not in n:
+                            ids.append(env.get(n.get("d"), n.get("n")))
+                        elif k == "Member" and "v" not in n:
+                            ids.append(n.get("n") or n.get("f"))
+                        elif k == "Call":
+                            ids.append(n.get("cname"))
+                        if "v" in n and k not in ("Call", "Assign", "Bin", "Un", "Cast", "Cond"):
+                            consts.append(n["v"])
+                    walk(core, v2)
+                    text = ("!" if neg else "") + txt(core)
+                    if any(d["text"] == text for d in lits):
+                        continue
+                    lits.append({"op": "not" if neg else "is", "ids": sorted(x for x in ids if x), "consts": sorted(consts), "text": text})
+            if not lits:
+                continue
+            base = "%s::%s->%s" % (short(fn["rect"]), fn["name"], c["cname"])
+            i = cnt.get(base, 0)
+            cnt[base] = i + 1
+            lits.sort(key=lambda d: (d["ids"], d["text"]))
+            rows["%s#%d" % (base, i)] = {"lits": lits, "text": " && ".join(d["text"] for d in lits), "loc": c.get("loc"), "fn": fn["qname"]}
     return rows
 
 
@@ -123,14 +162,29 @@ def obligations(facts, records=None):
         if records is not None and not any(key.startswith(r + "::") for r in records):
             continue
         k = "trigger:" + key
+        what = key.split("->")[1].split("#")[0]
         if key not in cur:
-            out.append(ob("triggers", k, "", "unrecognised", "structural trigger `%s` (%s) is no longer found in this form (refactored?): re-review and update spec/triggers.json" % (key, want["text"]), ""))
+            out.append(ob("triggers", k, "", "unrecognised", "the call of `%s` under (%s) is no longer found (refactored?): re-review and update spec/triggers.json" % (key, want["text"]), ""))
             continue
         got = cur[key]
-        if got["ids"] != want["ids"]:
-            out.append(ob("triggers", k, got["loc"], "unrecognised", "the condition guarding %s now reads %s (was %s): different operands - re-review" % (key.split("->")[1], got["text"], want["text"]), got["fn"]))
-        elif got["op"] != want["op"] or got["consts"] != want["consts"]:
-            out.append(ob("triggers", k, got["loc"], "violated", "the boundary that triggers %s moved: now %s, reviewed %s (same operands, different %s): the structural operation now happens one step early/late - typically a violated precondition (pivot out of range, full table, capacity exceeded) or unbounded growth" % (key.split("->")[1].split("#")[0], got["text"], want["text"], "operator" if got["op"] != want["op"] else "constant"), got["fn"]))
+        rest = list(got["lits"])
+        moved, lost = [], []
+        for w in want["lits"]:
+            same = [g for g in rest if g["ids"] == w["ids"] and g["op"] == w["op"] and g["consts"] == w["consts"]]
+            if same:
+                rest.remove(same[0])
+                continue
+            near = [g for g in rest if g["ids"] == w["ids"]]
+            if near:
+                rest.remove(near[0])
+                moved.append((w, near[0]))
+            else:
+                lost.append(w)
+        if moved:
+            w, g = moved[0]
+            out.append(ob("triggers", k, got["loc"], "violated", "the boundary that triggers %s moved: now %s, reviewed %s (same operands, different %s): the structural operation now happens one step early/late - typically a violated precondition (pivot out of range, full table, capacity exceeded) or unbounded growth" % (what, g["text"], w["text"], "operator" if g["op"] != w["op"] else "constant"), got["fn"]))
+        elif lost or rest:
+            out.append(ob("triggers", k, got["loc"], "unrecognised", "%s is now reached under (%s), reviewed (%s): different operands - re-review" % (what, got["text"], want["text"]), got["fn"]))
         else:
             out.append(ob("triggers", k, got["loc"], "discharged", got["text"], got["fn"]))
     return out
